@@ -280,8 +280,24 @@ def o8(tier):
     r.title = 'SQLite (shared with C10-O4): re-saving the group record overwrites image_hash / image_key / image_nonce (and every other column) with the new values, so a replaced group image decrypts with the stored seed and nonce'
     return r
 
+
+def o9(tier):
+    """memory backend: the epoch hint of a media reference is found whatever the state of the announcing message"""
+    from props import memobs
+    return memobs.epoch_hint_lookup(tier, 'O9', 'O9')
+
+
+def o10(tier):
+    """the stored welcome / group record is read back column by column: the group image key is not taken from another column"""
+    from props import C10
+    r = C10.o8(tier)
+    r.oid = 'O10'
+    r.title = 'SQLite (shared with C10-O8): every stored value reaches its own column and every decoder reads each column once, into the field of the same name (group_image_key / group_image_nonce of a welcome, image_key / image_nonce of a group are the published ones)'
+    return r
+
+
 def run(tier, seed, only=None):
-    obs = [('O1', o1), ('O2', o2), ('O3', o3), ('O4', o4), ('O5', o5), ('O6', o6), ('O7', o7), ('O8', o8)]
+    obs = [('O1', o1), ('O2', o2), ('O3', o3), ('O4', o4), ('O5', o5), ('O6', o6), ('O7', o7), ('O8', o8), ('O9', o9), ('O10', o10)]
     out = []
     for k, f in obs:
         if only and k not in only:
